@@ -148,7 +148,7 @@ class Xfer(Harness):
                       ["transmit-back", "transmit-E", "transmit"], ["transmit-E", "transmit", "fetch"]]
         for cl in lists:
             base = {"commands": cl, "F": F if len(cl) < 3 else F - 1, "S": S if len(cl) < 3 else S - 1}
-            out += [{**base, "_prefix": p} for p in split_prefixes(self.body, base, 8 if tier == "quick" else 32)]
+            out += [{**base, "_prefix": p} for p in split_prefixes(self.body, base, (24 if len(cl) >= 2 else 8) if tier == "quick" else 48)]
         return out
 
     def budget(self, tier):
